@@ -1420,6 +1420,7 @@ func main() {
 	if o.Only < 0 {
 		retainedCodecCheck(o, hlib.NewRng(o.Seed+4242))
 		retainedFrameCheck(o, hlib.NewRng(o.Seed+4243))
+		boundaryCheck(o, hlib.NewRng(o.Seed+4244))
 	}
 
 	// -- live traffic: real Sessions against the scripted node -----------------------------------------------------------------------------
